@@ -103,6 +103,12 @@ def fixed_scenarios():
                                        "threads": [SETUP + [("remove", 1, 0), ("add", 1, 0), ("join",)]]}))
     S.append(("cb-remove-readd", {"emit": {0: [1, 2, 3]}, "callbacks": {1: [[("remove", 1, 0), ("add", 1, 0)]], 0: [[], [], [("stop",)]]},
                                   "threads": [SETUP + [("join",)]]}))
+    # schedule() of a new watch racing stop() on a running observer: whichever comes first, no emitter thread may be left
+    # behind once stop() + join() have returned
+    S.append(("schedule-vs-stop", {"emit": {0: [1], 1: [2]},
+                                   "threads": [[("schedule", 0, 0, "n"), ("start",), ("schedule", 1, 1, "n")], [("stop",), ("join",)]]}))
+    S.append(("schedule-vs-stop-2", {"emit": {0: [1], 1: [2, 3]},
+                                     "threads": [[("schedule", 0, 0, "n"), ("start",)], [("schedule", 1, 1, "n")], [("stop",), ("join",)]]}))
     S.append(("unschedule-unknown", {"threads": [[("unschedule", 0), ("remove", 0, 0), ("add", 0, 0), ("stop",)]]}))
     return S
 
